@@ -111,7 +111,10 @@ impl rip_kernel::verif::Sink for Hub {
                 let mut rec = json!({"i": i, "actor": a, "ev": name});
                 if let (Some(obj), Some(f)) = (rec.as_object_mut(), fields.as_object()) {
                     for (k, v) in f {
-                        obj.insert(k.clone(), v.clone());
+                        if !v.is_null() {
+                            // TLC's Json module has no null
+                            obj.insert(k.clone(), v.clone());
+                        }
                     }
                 }
                 g.trace.push(rec);
